@@ -318,6 +318,31 @@ func registerIntrinsics(p *Program) {
 		return Slice{arr: arr, len: n, cap: n}
 	}
 	I["strings.Clone"] = func(e *Exec, fr *frame, args []Value) Value { return args[0] }
+	// strings.EqualFold, ASCII model: on a path where some byte may be >= 0x80 the call is outside the
+	// model (Unicode simple folding is table driven); for ASCII strings folding is 'A'..'Z' -> +0x20 and
+	// preserves length.
+	I["strings.EqualFold"] = func(e *Exec, fr *frame, args []Value) Value {
+		a, b := e.strBytes(args[0].(*Str)), e.strBytes(args[1].(*Str))
+		ascii := e.ts.Bool(true)
+		for _, x := range append(append([]*Term{}, a...), b...) {
+			ascii = e.ts.And(ascii, e.ts.Cmp(OpUlt, x, e.ts.BV(8, 0x80)))
+		}
+		if !e.branch(ascii) {
+			e.unsupported("strings.EqualFold on non-ASCII bytes (Unicode simple folding not modelled)")
+		}
+		if len(a) != len(b) {
+			return e.ts.Bool(false)
+		}
+		fold := func(x *Term) *Term {
+			upper := e.ts.And(e.ts.Cmp(OpUle, e.ts.BV(8, 'A'), x), e.ts.Cmp(OpUle, x, e.ts.BV(8, 'Z')))
+			return e.ts.Ite(upper, e.ts.Bin(OpAdd, x, e.ts.BV(8, 0x20)), x)
+		}
+		r := e.ts.Bool(true)
+		for i := range a {
+			r = e.ts.And(r, e.ts.Eq(fold(a[i]), fold(b[i])))
+		}
+		return r
+	}
 	I["unsafe.String"] = func(e *Exec, fr *frame, args []Value) Value {
 		p := args[0].(Pointer)
 		n := int(int64(e.concretize(e.toInt(args[1]), "unsafe.String")))
